@@ -62,6 +62,12 @@ def cases(tier, seed):
         d = json.loads(json.dumps(c))
         d["splits"] = rnd.choice([2, 4, 7])
         out.append(d)
+    # different adhesion and repulsion cut-offs (the padding of the boxes and the voxel size must follow the larger one)
+    for j, c in enumerate(out):
+        if j % 3 == 0:
+            c["cutr"] = c["cut"] + 1
+        elif j % 3 == 1 and c["cut"] > 1:
+            c["cutr"] = c["cut"] - 1
     # persistent identifiers that differ from list positions (what divisions and removals leave): rotated (the identifier of one
     # cell is the position of another) or unrelated
     for j, c in enumerate(out):
